@@ -973,6 +973,7 @@ def run_case(case):
                 dup = m.kid(d.key) is not None
                 concrete.append({"add": d.key, "cls": d.cls, "to": _rel_top(m), "via": op["via"], "dup": dup})
                 exc = None
+                before = (d.obj.parent, d.obj.extended_key())
                 try:
                     if op["via"] == "model":
                         model.add_parameter(d.obj)
@@ -988,6 +989,10 @@ def run_case(case):
                         out.fail("duplicate-key-accepted", detail)
                     elif not refusal_type_ok(exc):
                         out.fail("unexpected-exception:add:" + type(exc).__name__, detail)
+                    elif d.obj.parent is not before[0] or d.obj.extended_key() != before[1]:
+                        # the refused parameter itself is left alone as well: it does not belong to the map
+                        out.fail("refused-add-changed-the-offered-parameter",
+                                 dict(detail, extended_key=[before[1], d.obj.extended_key()]))
                     out.label("add:duplicate-key-refused")
                 else:
                     if exc is not None:
